@@ -15,7 +15,7 @@
                  from scratch by closure iteration; __sro__ must be the order a freshly built
                  graph gets (Model.Ro.fresh_sro); __iro__ its interface part; the observed
                  __bases__ must be the ones that were assigned. *)
-From Coq Require Import List Arith Bool.
+From Coq Require Import List Arith Bool NArith.
 Import ListNotations.
 From ZI Require Export Lib.Util Model.Ro Model.SpecGraph.
 
@@ -27,6 +27,17 @@ Definition nsnap :=
 Definition step_t := (list op * list nsnap)%type.
 (* an exception anywhere in the history is reported as [true] and fails both checks *)
 Definition case_t := (bool * list step_t)%type.
+
+(* compact literal form used by the generated case files: a list of creation numbers (< 64) is
+   one base-64 numeral with a leading sentinel digit 1; 0 stands for "no providedBy row" *)
+Fixpoint dec (fuel : nat) (n : N) : list node :=
+  match fuel with
+  | 0 => []
+  | S f => if N.leb n 1 then [] else N.to_nat (N.modulo n 64) :: dec f (N.div n 64)
+  end.
+Definition dl (n : N) : list node := dec 200 n.
+Definition sn (i : node) (k : bool) (b s r e x n p : N) : nsnap :=
+  (i, k, dl b, dl s, dl r, dl e, dl x, dl n, if N.eqb p 0 then None else Some (dl p)).
 
 Definition sn_id (s : nsnap) : node := let '(i, _, _, _, _, _, _, _, _) := s in i.
 Definition sn_if (s : nsnap) : bool := let '(_, k, _, _, _, _, _, _, _) := s in k.
